@@ -586,6 +586,107 @@ impl SubCheck for EmptyReplies {
     }
 }
 
+
+// ---------------------------------------------------------------------------------------------- who owns a session's replies
+
+/// A copy of one of a session's datagrams arrives at the server from somewhere else (an on-path observer re-sends it;
+/// the server refuses it as a replay). The session still belongs to the client that opened it: the target's replies go
+/// to that client's address and never to the sender of the copy.
+#[derive(Clone, Debug, Serialize, Deserialize)]
+pub struct OwnerCase {
+    pub cipher: C22,
+    pub n_users: u8,
+    pub seed: u64,
+    pub datagrams: u8,
+    pub copy_of: u8,
+}
+
+pub struct SessionOwner;
+
+impl SubCheck for SessionOwner {
+    type Case = OwnerCase;
+    fn name(&self) -> &'static str {
+        "session-owner"
+    }
+    fn strategy(&self, _tier: Tier) -> BoxedStrategy<OwnerCase> {
+        (proptest::sample::select(C22::ALL.to_vec()), 0u8..3, 1u64..1_000_000, 1u8..5, any::<u8>()).prop_map(|(cipher, n_users, seed, datagrams, copy_of)| OwnerCase { cipher, n_users, seed, datagrams, copy_of }).boxed()
+    }
+    fn workers(&self) -> usize {
+        (rt::threads() / 2).clamp(1, 8)
+    }
+    fn max_shrink_iters(&self) -> u32 {
+        12
+    }
+    fn confirm_runs(&self) -> u32 {
+        2
+    }
+    fn exec(&self, c: &OwnerCase) -> Outcome {
+        use crate::sys::refpeer::RefUdpClient;
+        let mut out = Outcome::new();
+        let mut spec = Spec::new(Proto::Ss22(c.cipher), Transport::Tcp);
+        spec.udp = true;
+        spec.n_users = if c.cipher.is_aes() { c.n_users } else { 0 };
+        spec.seed = c.seed;
+        spec.workers = 2 + (c.seed % 4) as u8;
+        let mut cl = match Cluster::start(&spec) {
+            Ok(cl) => cl,
+            Err(_) => return out,
+        };
+        // replies come a little late, so that the copy is at the server before them
+        let target = UdpTarget::spawn_delayed(3, true, 300);
+        let taddr = Addr::V4([127, 0, 0, 1], target.port);
+        let sid = 0x0c02_0000_0000_0000 ^ (c.seed << 8);
+        let (Ok(owner), Ok(other)) = (RefUdpClient::new(&cl.cred, cl.server_port, sid), RefUdpClient::new(&cl.cred, cl.server_port, sid)) else { return out };
+        let n = c.datagrams.max(1) as u64;
+        let mut wires = vec![];
+        let mut payloads = vec![];
+        for k in 1..=n {
+            let p = format!("owner-datagram-{}", k).into_bytes();
+            wires.push(owner.send(k, &taddr, &p));
+            payloads.push(p);
+            std::thread::sleep(Duration::from_millis(5));
+        }
+        let ci = c.copy_of as usize % wires.len();
+        other.send_wire(&wires[ci]);
+        out.label(format!("proto:ss/{}", c.cipher.name()));
+        out.weight = n + 1;
+        let fast = rt::failed_already();
+        let mine = owner.recv_all(Duration::from_millis(if fast { 700 } else { 1300 }));
+        let stray = other.recv_raw(Duration::from_millis(150), 8);
+        for w in &stray {
+            if owner.decode_reply(w).is_ok() {
+                out.fail(
+                    "session-owner/reply-delivered-to-the-sender-of-a-copy",
+                    format!("{} datagrams of one session from one socket, a copy of datagram {} re-sent from another socket: a reply of the session was delivered to the other socket [{}]\n{}", n, ci + 1, spec.short(), crate::ev::truncate(&cl.logs(4), 800)),
+                );
+                return out;
+            }
+        }
+        let answered = mine.iter().filter(|r| matches!(r, Ok((_, _, p)) if payloads.iter().any(|q| *p == net::reply_for(3, q)))).count();
+        out.nontrivial(format!("{}|{}|{}|{}", c.cipher.name(), spec.n_users, n, ci));
+        if answered == 0 {
+            // one more exchange before the owner is said to get nothing (loss alone is not a failure)
+            let p = b"owner-datagram-after".to_vec();
+            let mut ok = false;
+            for k in 0..3u64 {
+                owner.send(n + 1 + k, &taddr, &p);
+                if owner.recv_all(Duration::from_millis(if fast { 700 } else { 1300 })).iter().any(|r| matches!(r, Ok((_, _, q)) if *q == net::reply_for(3, &p))) {
+                    ok = true;
+                    break;
+                }
+            }
+            if !ok {
+                out.fail(
+                    "session-owner/owner-gets-no-replies-after-a-copy-from-elsewhere",
+                    format!("after a copy of datagram {} was re-sent from another socket the session's own client got none of {} replies, nor any to three more datagrams [{}]\n{}", ci + 1, n, spec.short(), crate::ev::truncate(&cl.logs(4), 800)),
+                );
+            }
+        }
+        let _ = cl.health();
+        out
+    }
+}
+
 pub struct Datagrams;
 
 impl SubCheck for Datagrams {
@@ -624,7 +725,7 @@ impl SubCheck for Datagrams {
 }
 
 pub fn subs() -> Vec<Box<dyn DynSub>> {
-    vec![Box::new(Datagrams), Box::new(EmptyReplies), Box::new(crate::props::c04_dgram::DgramCuts)]
+    vec![Box::new(Datagrams), Box::new(EmptyReplies), Box::new(SessionOwner), Box::new(crate::props::c04_dgram::DgramCuts)]
 }
 
 pub fn run(ctx: &mut PropCtx) {
@@ -664,5 +765,6 @@ pub fn run(ctx: &mut PropCtx) {
     if ctx.tier == Tier::Thorough {
         rt::run_sub(ctx, &EmptyReplies, 200);
     }
+    rt::run_sub(ctx, &SessionOwner, ctx.tier.pick(16, 400));
     rt::run_sub(ctx, &crate::props::c04_dgram::DgramCuts, ctx.tier.pick(20_000, 300_000));
 }
